@@ -1,6 +1,6 @@
 /-
 Bridge lemmas for translator T-f: `PartialJoin.columns_required`, `PartialJoin.commute`,
-`Materialization.simplify`, `Transfer.simplify` and `Chain._begin_apply`, as regenerated from the
+`Materialization.simplify`, `Transfer.simplify`, `Chain._begin_apply` and `PartialJoin._begin_apply`, as regenerated from the
 current source (Gen/RelOps.lean), are the model's definitions.
 -/
 import DafRel.Gen.RelOps
@@ -16,6 +16,28 @@ theorem PartialJoin_commute_eq (p : PJoin) (cur : UOp) (tcols ccols : Cols) :
   unfold Gen.PartialJoin_commute PJoin.commute
   rw [PartialJoin_columns_required_eq]
   cases cur <;> simp <;> (repeat' split) <;> simp_all
+
+theorem seteq_self (c : Cols) : c.seteq c = true := by
+  simp [Cols.seteq, Cols.subset]
+
+/-- `PartialJoin._begin_apply`, as regenerated (self-recursive on the replacement with resolved common columns, hence
+the recursion budget: two levels suffice), is the model's `PJoin.beginApply`. -/
+theorem PartialJoin_begin_apply_eq (fuel : Nat) (p : PJoin) (t : Rel) (pref : Option Engine) :
+    Gen.PartialJoin_begin_apply (fuel+2) p t pref = p.beginApply t pref := by
+  unfold PJoin.beginApply
+  rw [Gen.PartialJoin_begin_apply]
+  by_cases hres : p.join.resolved = true
+  · simp [hres, PartialJoin_columns_required_eq]
+  · have hres' : p.join.resolved = false := by simpa using hres
+    simp only [hres', Bool.not_false, if_true]
+    cases hc : p.join.appliedCommonColumns p.fixed.columns t.columns with
+    | error e => rfl
+    | ok c =>
+      simp only []
+      rw [Gen.PartialJoin_begin_apply]
+      have hr : JoinOp.resolved { p.join with minCols := c, maxCols := some c } = true := by
+        simp [JoinOp.resolved, seteq_self]
+      simp [hr, PartialJoin_columns_required_eq]
 
 theorem Materialization_simplify_eq : (t : Rel) → Gen.Materialization_simplify t = matSimplify t
   | .leaf .. => by simp [Gen.Materialization_simplify, matSimplify]
